@@ -640,6 +640,16 @@ def m_dict(eng, args, kwargs, st, node):
     raise Undecided('dict(%r)' % (args,), node)
 
 
+import collections as _collections
+
+
+@func(_collections.OrderedDict)
+def m_ordereddict(eng, args, kwargs, st, node):
+    if not args and not kwargs:
+        return [(st.alloc(HDict({})), st)]       # an empty ordered dict: the empty dict (order is not modelled for any dict)
+    raise Undecided('OrderedDict(%r)' % (args,), node)
+
+
 @method('dict.copy')
 def dict_copy(eng, args, kwargs, st, node):
     from . import flagdict
